@@ -32,6 +32,14 @@ class StopSentinel:  # pylint: disable=too-few-public-methods
     """
 
 
+class RaisedInThread:  # pylint: disable=too-few-public-methods
+    """An exception raised by the mapped function in a worker thread.
+    """
+
+    def __init__(self, exception: BaseException) -> None:
+        self.exception: BaseException = exception
+
+
 class LazyPool:
     """Lazy version of `concurrent.futures.ThreadPoolExecutor.map`. Allows to
     iterate content of shards without reading all of them into memory if they
@@ -144,10 +152,13 @@ class LazyPool:
 
         # Get and yield one and put another to be processed.
         while self._active_threads > 0:
-            next_result: V | StopSentinel = self._results.get()
+            next_result: V | StopSentinel | RaisedInThread = self._results.get()
             if isinstance(next_result, StopSentinel):
                 self._active_threads -= 1
                 continue
+            if isinstance(next_result, RaisedInThread):
+                self.finish_and_reset()
+                raise next_result.exception
 
             # New element to be processed. After the potentially finite
             # `iterator` we append an infinite number of `StopSentinel`s so the
@@ -215,5 +226,11 @@ class Collector(threading.Thread):
                 return
 
             # Can be blocking, but should be short.
-            self._results.put(self.func(element))
+            try:
+                result = self.func(element)
+            except BaseException as exc:  # pylint: disable=broad-exception-caught
+                # Tell the consumer instead of letting it wait forever.
+                self._results.put(RaisedInThread(exc))
+                return
+            self._results.put(result)
             time.sleep(0.0)  # Give up GIL.
